@@ -3,39 +3,11 @@
 -/
 import Nuts.Model.Tx
 import NutsProofs.Props.C10
+import NutsProofs.Lemmas.ReopenObs
 namespace NutsProofs.C08
 open Nuts Nuts.Model Nuts.Model.DB NutsProofs
 
-theorem applyOther_files (s : State) (r : Rec) (c : Bool) : (applyOther s r c).1.files = s.files ∧ (applyOther s r c).1.opt = s.opt := by
-  unfold applyOther
-  split
-  · exact ⟨rfl, rfl⟩
-  · split
-    · exact ⟨rfl, rfl⟩
-    · split <;> exact ⟨rfl, rfl⟩
-
-/-- recovery never writes: the files (and options) of the state are those it started from -/
-theorem replay_files (rs : List (Rec × Nat × Nat)) (ids : List Nat) (s : State) :
-    (replay s rs ids).1.files = s.files ∧ (replay s rs ids).1.opt = s.opt := by
-  induction rs generalizing s with
-  | nil => exact ⟨rfl, rfl⟩
-  | cons x rest ih =>
-    obtain ⟨r, fid, pos⟩ := x
-    simp only [replay]
-    split
-    · exact ih s
-    · split
-      · have := ih (applyKV s { r with status := 1 } fid pos)
-        exact this
-      · split
-        · exact ⟨rfl, rfl⟩
-        · have h := applyOther_files s r false
-          generalize applyOther s r false = p at h ⊢
-          obtain ⟨s', o⟩ := p
-          cases o with
-          | ok u => simp only; have := ih s'; simp only at h; rw [h.1, h.2] at this; exact this
-          | err => simp only; have := ih s'; simp only at h; rw [h.1, h.2] at this; exact this
-          | panic => simpa using h
+open NutsProofs.Replay (applyOther_files replay_files)
 
 /-- **C08 (Open does not modify the log).** The files after a successful `Open` are the files before
 it, plus at most the (empty) active file that `Open` creates. -/
@@ -48,5 +20,58 @@ theorem C08_open_preserves_files (opt : Opts) (fs : List File) :
   · split
     · rfl
     · exact (replay_files _ _ _).1
+
+/-! ### a clean reopen, for every key/value history
+
+`Reopen.LogInv` is the invariant: the active file is the last and largest-numbered one, the index is the
+fold of `applyKV` over the log in write order (up to the status byte of the cached record), every record of
+the log belongs to a committed transaction, `committed` holds exactly the marked ids. It holds in the empty
+database, every successful key/value `Commit` keeps it (rotations included) and so does every `Open`; and
+`Open` on the files of a state that has it rebuilds that state's index, hints included. -/
+
+open NutsProofs.Reopen in
+/-- **C08 (key/value histories).** Take any history of key/value write transactions (any number of records
+each, puts and deletes, with or without TTL, any segment size — so any number of rotations) and reopens with
+any options in between, starting from the empty database. Then a final `Open` with the options in force
+succeeds, leaves the files as they are, and every key/value read returns what it returned before the reopen:
+`Get`, `GetAll`, `RangeScan`, `PrefixScan` and `PrefixSearchScan`, for every bucket, key, range, prefix,
+offset, limit, match predicate and clock value — in both RAM index modes. (Records are compared without the
+status byte, which no API returns.) -/
+theorem C08_reopen_preserves_kv_reads (opt0 : Opts) (ops : List Op) (hok : OpsOk (openDB opt0 []).1 ops)
+    (opt : Opts) (hopt : opt.core = (ops.foldl stepOp (openDB opt0 []).1).opt) :
+    let s := ops.foldl stepOp (openDB opt0 []).1
+    let s' := (openDB opt s.files).1
+    (openDB opt s.files).2 = .ok () ∧ s'.files = s.files ∧
+    (∀ b k now, vis (DB.get s' b k now) = vis (DB.get s b k now)) ∧
+    (∀ b now, visL (getAll s' b now) = visL (getAll s b now)) ∧
+    (∀ b st en now, visL (rangeScan s' b st en now) = visL (rangeScan s b st en now)) ∧
+    (∀ b pre off lim now mt, visL (prefixScan s' b pre off lim now mt) = visL (prefixScan s b pre off lim now mt)) := by
+  intro s s'
+  have hinv : LogInv s := logInv_ops ops _ (logInv_init opt0) hok
+  obtain ⟨h1, h2, h3, h4⟩ := open_rebuilds s hinv opt
+  have hopt' : s'.opt = s.opt := by
+    have : s'.opt = opt.core := Replay.openDB_opt opt _
+    rw [this, hopt]
+  have hr : Rebuilt s s' := Rebuilt.of_files h2 h3 hopt' h4
+  exact ⟨h1, h3, fun b k now => get_rebuilt hr b k now, fun b now => getAll_rebuilt hr b now,
+    fun b st en now => rangeScan_rebuilt hr b st en now,
+    fun b pre off lim now mt => prefixScan_rebuilt hr b pre off lim now mt⟩
+
+/-- a one-record transaction: `Put(bucket a, key k, 16 bytes)` with transaction id `id` (60 bytes on disk) -/
+def wTx (id k : Nat) : List Rec := [{ (mkRec [97] [k.toUInt8] (List.replicate 16 120) flagSet dsKV) with txid := id }]
+
+open NutsProofs.Reopen in
+/-- the hypotheses are met by a history that rotates: transactions of 60-byte records over 100-byte
+segments (every commit after the first rotates) and a reopen in the middle -/
+theorem C08_witness_history :
+    OpsOk (openDB { seg := 100 } []).1 [.commit (wTx 1 1), .commit (wTx 2 2), .reopen { seg := 100 }, .commit (wTx 3 1)] := by
+  refine ⟨⟨by simp [wTx], 1, ?_⟩, ⟨by simp [wTx], 2, ?_⟩, ⟨by simp [wTx], 3, ?_⟩, trivial⟩
+  all_goals (intro r hr; simp only [wTx, List.mem_singleton] at hr; subst hr; decide +kernel)
+
+/-- … and it does rotate: three data files at the end -/
+theorem C08_witness_rotates :
+    (([Reopen.Op.commit (wTx 1 1), .commit (wTx 2 2), .reopen { seg := 100 }, .commit (wTx 3 1)].foldl Reopen.stepOp
+      (openDB { seg := 100 } []).1).files.map (·.fid)) = [0, 1, 2] := by
+  decide +kernel
 
 end NutsProofs.C08
